@@ -5,6 +5,7 @@ CONSTANTS
   Conns = {1, 2, 3}
   CacheModes = {"nil", "zero", "on"}
   MaxSalt = 6
+  Faults = TRUE
   MaxInFlight = 2
 INVARIANTS TypeOK RespSaltsFresh RespSaltsRecognised ReflectedNeverAuthenticated StatusClasses ProbeNoEffect
 VIEW View
